@@ -287,6 +287,22 @@ def eq_term(E, a, b, node, fr):
         if sa.ty != sb.ty:
             return z3.BoolVal(False)
         return sa.t == sb.t
+    def _dict_sv(x, other=None):
+        if isinstance(x, SV) and isinstance(x.ty, TDict):
+            return x
+        if isinstance(x, Ref) and E.cell(x)[0] == "dict":
+            return E.cell(x)[1]
+        if isinstance(x, Ref) and E.cell(x)[0] == "pydict" and not E.cell(x)[1] and other is not None:
+            return L.empty_dict(E, other.ty)
+        return None
+    da, db = _dict_sv(a), _dict_sv(b)
+    if da is not None or db is not None:
+        da = da if da is not None else _dict_sv(a, db)
+        db = db if db is not None else _dict_sv(b, da)
+        if da is None or db is None or da.ty != db.ty:
+            raise Unsupported("dict comparison %r == %r" % (a, b))
+        # same mapping and same insertion order (B4: the key sequence is a function of the dict value)
+        return z3.And(da.t == db.t, E.dkeys(da) == E.dkeys(db))
     if isinstance(a, Ref) or isinstance(b, Ref):
         ca = E.cell(a)[0] if isinstance(a, Ref) else None
         cb = E.cell(b)[0] if isinstance(b, Ref) else None
@@ -583,6 +599,8 @@ def get_attr(E, obj, attr, fr, node):
             cv = class_attr(E, cd.key, attr)
             if cv is not NOATTR:
                 return cv
+            if attr in ("get", "clear", "popitem", "keys", "items", "values", "__contains__") and not E.spec_mode:
+                return Bound(obj, attr)    # possibly a collections.abc mixin method (resolved at the call)
             if E.spec_mode:
                 raise Unsupported("no field %s on %s" % (attr, cd.key))
             if attr in cd.fields:
@@ -652,6 +670,14 @@ def get_attr(E, obj, attr, fr, node):
     if isinstance(obj, (SV, int, bytes, str, bytearray, tuple)) or obj is None:
         if obj is None:
             raise PyRaise("AttributeError", line)
+        if isinstance(obj, SV) and isinstance(obj.ty, TOpt) and obj.ty.elem == TFile:
+            so = sort(obj.ty)
+            E.may_raise("AttributeError", so.is_none(obj.t), line, "attribute %s of None" % attr)
+            obj = SV(so.val(obj.t), TFile)
+        if isinstance(obj, SV) and obj.ty == TFile:
+            from .files import file_attr
+            r = file_attr(E, obj, attr)
+            return r if r is not None else Bound(obj, attr)
         known = ()
         if is_intlike(obj):
             known = ("bit_length", "to_bytes", "__index__", "from_bytes")
@@ -729,7 +755,44 @@ def find_method(E, clskey, name, after=None):
         for st in node.body:
             if isinstance(st, (ast.FunctionDef, ast.AsyncFunctionDef)) and st.name == name:
                 return "%s.%s" % (k, name)
+        # class-level aliases:  __iter__ = __len__ = close = closed
+        for st in node.body:
+            if isinstance(st, ast.Assign) and isinstance(st.value, ast.Name) and any(
+                    isinstance(t, ast.Name) and t.id == name for t in st.targets):
+                for st2 in node.body:
+                    if isinstance(st2, (ast.FunctionDef, ast.AsyncFunctionDef)) and st2.name == st.value.id:
+                        return "%s.%s" % (k, st2.name)
     return None
+
+
+def abc_mixin(E, recv, cd, name, args, kwargs, fr, node):
+    """methods a repository class inherits from collections.abc.Mapping / MutableMapping (B5: the mixins are defined in
+    terms of __getitem__ / __iter__ exactly as the library documents).  Returns NOATTR when not applicable."""
+    bases = set()
+    for k in class_mro(E, cd.key):
+        cnode, _, _ = E.repo.find(k)
+        for b in cnode.bases:
+            bases.add(ast.unparse(b).split(".")[-1])
+    if not bases & {"Mapping", "MutableMapping"}:
+        return NOATTR
+    line = getattr(node, "lineno", 0)
+    E.trusted_used.add("B5:collections.abc mixin %s" % name)
+    if name in ("__contains__", "get"):
+        fr.handlers.append(["KeyError"])
+        try:
+            try:
+                v = call_method(E, recv, "__getitem__", [args[0]], {}, fr, node)
+            finally:
+                fr.handlers.pop()
+        except PyRaise as e:
+            if e.exc != "KeyError":
+                raise
+            return False if name == "__contains__" else (args[1] if len(args) > 1 else kwargs.get("default"))
+        return True if name == "__contains__" else v
+    if name in ("clear", "popitem", "keys", "items", "values") and "MutableMapping" in bases | {"MutableMapping"}:
+        call_method(E, recv, "__iter__", [], {}, fr, node)
+        raise Unsupported("collections.abc %s on a live mapping" % name)
+    return NOATTR
 
 
 # ------------------------------------------------------------------------------------------------
@@ -783,6 +846,11 @@ def call(E, e, fr):
             k = E.to_sv(E.eval(e.args[1], fr), d.ty.key)
             v = E.to_sv(E.eval(e.args[2], fr), d.ty.val)
             return SV(z3.Store(d.t, k.t, sort(TOpt(d.ty.val)).some(v.t)), d.ty)
+        if f.id == "ddel":
+            d = E.eval(e.args[0], fr)
+            d = E.cell(d)[1] if isinstance(d, Ref) else d
+            k = E.to_sv(E.eval(e.args[1], fr), d.ty.key)
+            return SV(z3.Store(d.t, k.t, sort(TOpt(d.ty.val)).none), d.ty)
         if f.id == "dmap":
             v = E.eval(e.args[0], fr)
             if isinstance(v, Ref) and E.cell(v)[0] == "pydict" and not E.cell(v)[1]:
@@ -1014,9 +1082,15 @@ def call_function(E, key, args, kwargs, fr, node):
         if len(variants) == 1:
             return call_contract(E, CONTRACTS[variants[0]], variants[0], fnode, mod, clsnode, args, kwargs, fr, node)
         env = bind_params(E, fnode, args, kwargs, mod, clsnode, key)
+        def pv_ok(c):
+            for p, val in c.param_values.items():
+                have = env.get(p)
+                if isinstance(val, (str, int, bool)) and isinstance(have, (str, int, bool)) and have != val:
+                    return False
+            return True
         for vk in variants:
             c = CONTRACTS[vk]
-            if all(matches(E, env.get(p), ty) for p, ty in c.params.items()):
+            if pv_ok(c) and all(matches(E, env.get(p), ty) for p, ty in c.params.items() if p not in c.param_values):
                 return call_contract(E, c, vk, fnode, mod, clsnode, args, kwargs, fr, node)
         raise Unsupported("no contract variant of %s matches the argument types %r (line %d)" % (
             key, [env.get(p) for p in CONTRACTS[variants[0]].params], getattr(node, "lineno", 0)))
@@ -1108,6 +1182,10 @@ def call_contract(E, c, key, fnode, mod, clsnode, args, kwargs, fr, node):
                     E.setcell(v, E.havoc_cell(short + "." + m, cell))
         for g in c.modifies_ghost:
             E.ghostv[g] = E.fresh("ghost_" + g, E.ghostv[g].ty)
+        for p_, st_ in c.becomes.items():
+            v = env.get(p_)
+            if isinstance(v, Ref):
+                E.setcell(v, E.cell(E.fresh_of("%s.%s" % (short, p_), TObj(st_), assume_inv=False)))
         result = None
         if c.returns is not None:
             result = E.fresh_of("ret_" + short.replace(".", "_"), c.returns, assume_inv=False)
@@ -1136,8 +1214,16 @@ def matches(E, v, ty):
     if ty == TNone:
         return v is None
     if isinstance(ty, TObj):
-        return isinstance(v, Ref) and E.cell(v)[0] == "obj" and (
-            ty.cls in class_mro(E, E.cell(v)[1].key))
+        if not (isinstance(v, Ref) and E.cell(v)[0] == "obj" and ty.cls.split("@")[0] in class_mro(E, E.cell(v)[1].key)):
+            return False
+        # typestate: a class declared in several shapes matches by the shape of its reference-valued fields
+        base = ty.cls.split("@")[0]
+        if any(k.startswith(base + "@") for k in CLASSES) and ty.cls in CLASSES:
+            fields = E.cell(v)[2]
+            for f, fty in CLASSES[ty.cls].fields.items():
+                if isinstance(fty, (TObj, TDict, TList)) and f in fields and not matches(E, fields[f], fty):
+                    return False
+        return True
     if isinstance(ty, TList):
         return (isinstance(v, Ref) and E.cell(v)[0] in ("seq", "pylist", "iter")) or (
             isinstance(v, SV) and isinstance(v.ty, TList)) or isinstance(v, (tuple, list))
@@ -1208,6 +1294,9 @@ def call_method(E, recv, name, args, kwargs, fr, node):
                 return cd.virtual[name](E, recv, args, kwargs, fr, node)
             mk = find_method(E, cd.key, name)
             if mk is None:
+                r = abc_mixin(E, recv, cd, name, args, kwargs, fr, node)
+                if r is not NOATTR:
+                    return r
                 if E.catches("AttributeError") or E.catches("BaseException"):
                     raise PyRaise("AttributeError", line)
                 raise Unsupported("no method %s on %s" % (name, cd.key))
